@@ -20,7 +20,8 @@ Names == <<"list", "vector", "cons", "concat", "vec", "nth", "first", "rest", "c
 \* the first Pool3 values are the ones used for 3-argument calls
 PoolText == <<"[1 2 3]", "{:a 1}", "1", ":a", "nil", "(1 2 3)", "0", "[:a]", "#{:a \"b\"}", "2", "inc", "{:a {:b 1}}",
               "()", "[]", "{}", "#{}", "(1)", "[1]", "{\"a\" 1 :b nil}", "-1", "5", "\"s\"", "\"\"", "q",
-              "true", "false", "[:a :b]", "\"a\"", ":b", "[0]", "{:b :a}", "(:a 1)", "identity">>
+              "true", "false", "[:a :b]", "\"a\"", ":b", "[0]", "{:b :a}", "(:a 1)", "identity",
+              "{:a 1 :b 2}", "{:a :b :b :a}", "{:a :b :b :c}", "[1 [2 3]]">>
 FnRefs == {"inc", "identity"}
 Pool == [k \in 1..Len(PoolText) |->
            IF PoolText[k] \in FnRefs THEN Mk("fnref", 0, PoolText[k], <<>>, NoMap) ELSE Parse(PoolText[k])]
